@@ -87,6 +87,11 @@ CHECKS = {
    technique="exhaustive enumeration of (glob pattern x path) pairs over token/character alphabets and of all small copyright files x paths, executed through both real readers against a backtracking reference matcher and a last-match-wins reference",
    text="Globs: every pattern of 1-3 tokens (thorough 4) over {a b . / + ( [ * ? \\* \\? \\\\} x every path of 0-2 characters (thorough 3) over {a b . / + ( [ * ? \\} goes through FilesParagraph::matches of the lossless and the lossy reader and must agree with a 10-line backtracking matcher written from the statement ('*' crosses '/', '?' one character, backslash escapes, everything else literal, whole-path match). Lookup: every copyright file of 0-2 (thorough 3) Files paragraphs (80 configurations each: 5 first patterns x second pattern absent / same line / own line x 4 licence kinds) with 4 stand-alone-licence sets x 6 paths must resolve, in both readers, to the last matching paragraph and to its own licence text or else the first stand-alone licence of that name; texts not starting with Format are refused.",
    note="Backslash followed by another character, empty patterns and text-only licences are outside the domain."),
+ "C18": dict(
+   category="exploration", design_ref="DESIGN.md §3 C18",
+   technique="exhaustive enumeration per typed value family: all enumeration values, full products of record component menus, canonical texts, and for keyword types every string to length 4-5 plus the complete edit-distance-1 neighbourhood of each keyword",
+   text="24 value families (Priority, MultiArch, Urgency, the four checksum records, PackageListEntry, changes File, VersionConstraint, BuildProfile, ParsedVcs, Vcs x 5 kinds with every branch/subpath/module combination, DEP-3 Forwarded / OriginCategory / Origin / AppliedUpstream and origin-with-category through both patch-header types, License, RepositoryType, YesNoForce, Signature): every value of the family is printed and parsed back (must be equal), every canonical text is parsed and printed (must be identical), and for the 9 keyword types every string over up to 8 keyword letters + '-', ' ', 'A' to length 4 (thorough 5) and every deletion / substitution / insertion / case flip of every keyword must be rejected unless it is a keyword (case variants accepted only for Urgency, as documented).",
+   note="Free-form payloads that collide with the text syntax (e.g. Forwarded::Yes(\"no\"), tokens with whitespace, two extra keys printed in hash order) are outside the value domain."),
  "C19": dict(
    category="fault_enumeration", design_ref="DESIGN.md §3 C19",
    technique="exhaustive fault enumeration: for every message of a bounded family, every line truncation, every byte truncation (small sub-family), every trailing addition; reference computed from construction offsets",
